@@ -10,12 +10,46 @@ import os, re, random, shutil, hashlib
 from lib import core, pptok
 
 LEVEL = 'exploration'
-MIN_COUNTS = {'cases_compared': (900, 35000), 'determinism_runs': (100, 2000), 'memcheck_runs': (2, 30)}
+MIN_COUNTS = {'cases_compared': (1200, 45000), 'determinism_runs': (100, 2000), 'memcheck_runs': (2, 30)}
 
 # the stages run at different instants: __DATE__/__TIME__ are pinned by a preloaded time() so that they cannot differ
 FIXED_CLOCK = {'LD_PRELOAD': os.path.join(core.VERIF, 'build', 'faketime.so'), 'VERIF_TIME_FIXED': '1790000000'}
 
 OPTSETS = [['-S'], ['-E'], ['-c'], ['-S', '-fPIC'], ['-S', '-fno-common'], ['-S', '-DFOO=1', '-UBAR', '-DBAR=2'], ['-M'], ['-c', '-fPIC']]
+
+
+HOSTILE_LITS = ['0.0/0.0', '1e30', '-1e30', '1e19', '-0.5', '1.0/0.0', '-1.0/0.0', '3.7', '0x7fffffffffffffff', '(-0x7fffffffffffffffL-1)', '-1', '63', '64', '65', '31', '32',
+                '1e300*1e300', '1e-320', '0x1p63', '0x1p64', '-0x1p63', '4294967296.0', '2147483648.0f', '0x1p31', '1e10f', '18446744073709551615u', '0x80000000', '2147483647',
+                '0', '1', '0.1', '0.1f', '0.1L', '1e4000L', '1e-4940L', '255', '256', '-129', '65535', '1.5', '0x1.fffffffffffffp1023', "'a'", '(char)200', '(_Bool)2']
+HOSTILE_TYPES = ['char', 'unsigned char', 'short', 'unsigned short', 'int', 'unsigned', 'long', 'unsigned long', '_Bool', 'float', 'double', 'long double']
+
+
+def hostile_consts(rng):
+    """File-scope initializers whose constant expressions include conversions and operations that are undefined or
+    implementation-defined *for the program*: the compiler's answer (bytes or diagnostic) must still not depend on how the compiler itself was compiled."""
+    def e(d):
+        if d <= 0 or rng.random() < 0.3:
+            return rng.choice(HOSTILE_LITS)
+        r = rng.random()
+        if r < 0.3:
+            return '(%s)(%s)' % (rng.choice(HOSTILE_TYPES), e(d - 1))
+        if r < 0.4:
+            return '%s(%s)' % (rng.choice(['-', '~', '!', '+']), e(d - 1))
+        if r < 0.5:
+            return '((%s) ? (%s) : (%s))' % (e(d - 1), e(d - 1), e(d - 1))
+        return '((%s) %s (%s))' % (e(d - 1), rng.choice(['+', '-', '*', '/', '%', '<<', '>>', '<', '<=', '==', '!=', '&', '|', '^', '&&', '||']), e(d - 1))
+    lines = []
+    for i in range(rng.randrange(1, 5)):
+        t = rng.choice(HOSTILE_TYPES)
+        form = rng.random()
+        if form < 0.6:
+            lines.append('%s h%d = %s;' % (t, i, e(rng.randrange(1, 4))))
+        elif form < 0.8:
+            lines.append('%s ha%d[3] = {%s, %s};' % (t, i, e(2), e(2)))
+        else:
+            lines.append('struct { %s a; int b : 7; %s c; } hs%d = {%s, %s, %s};' % (t, rng.choice(HOSTILE_TYPES), i, e(2), e(1), e(2)))
+    lines.append('int f(void) { switch (h0 != 0) { case (int)(%s): return 1; } return sizeof(char [1 + ((%s) != 0)]); }' % (rng.choice(HOSTILE_LITS), rng.choice(HOSTILE_LITS)))
+    return '\n'.join(lines) + '\n'
 
 
 def run_stages(a):
@@ -116,6 +150,10 @@ def run(ctx):
         p = os.path.join(gen, 'cond%d.c' % k)
         open(p, 'w').write(C10.cond_case(rng)[0])
         corpus.append((p, [], 'gen-cond'))
+    for k in range(ctx.scale(300, 12000)):
+        p = os.path.join(gen, 'hc%d.c' % k)
+        open(p, 'w').write(hostile_consts(rng))
+        corpus.append((p, [], 'gen-hostile-const'))
     nm = ctx.scale(400, 20000)
     tsrc = [(f, open(os.path.join(snap, 'test', f), errors='surrogateescape').read()) for f in tests]
     for k in range(nm):
@@ -131,7 +169,7 @@ def run(ctx):
             osets = [['-E']]
         elif kind in ('own', 'test'):
             osets = OPTSETS if ctx.tier == 'thorough' else [OPTSETS[0], OPTSETS[2], rng.choice(OPTSETS[1:])]
-        elif kind == 'mutant':
+        elif kind in ('mutant', 'gen-hostile-const'):
             osets = [['-S']]
         else:
             osets = [['-S'], rng.choice([['-c'], ['-E'], ['-S', '-fPIC']])]
